@@ -1,5 +1,14 @@
 """C13 - conveyor stalls: non-accumulating belts stop, accumulating belts close up."""
-from ..common import Result, close
+from ..common import Result
+from ..common import close as _close
+
+_SCALE = [0.0]
+
+
+def close(a, b):
+    # instants measured relative to a large clock offset t0 carry the float spacing at t0 (about 2e-16 * t0 each)
+    return _close(a, b) or abs(a - b) <= 64 * 2.3e-16 * _SCALE[0]
+
 from ..harness_conv import ConvRun
 from ..model_kin import simulate
 from .. import gen_conv
@@ -82,6 +91,7 @@ def compare(case, r, m):
 
 
 def run_case(case):
+    _SCALE[0] = float(case.get("t0") or 0.0)
     res = Result()
     r = ConvRun(case).run()
     c = case["conv"]
